@@ -71,6 +71,13 @@ class Mutate(BasePass):
         data.error = 0.5
         data.seed = 99
         data['user'] = 'changed'
+        # values already in the pass data, edited in place (what a body
+        # such as ForEachBlockPass does with its own key)
+        if 'history' in data:
+            data['history'].append('body ran')
+            data['stats']['runs'] += 1
+        data.placement.reverse()
+        data.placement.reverse()
         data.model = MachineModel(circuit.num_qudits + 1)
 
 
@@ -92,6 +99,8 @@ def view(c: Circuit, d: PassData) -> dict:
         'initial_mapping': list(d.initial_mapping),
         'final_mapping': list(d.final_mapping), 'error': d.error,
         'seed': d.seed, 'user': d.get('user'),
+        'history': list(d.get('history', [])),
+        'stats': dict(d.get('stats', {})),
         'model_n': d.model.num_qudits,
     }
 
@@ -156,6 +165,8 @@ def decide_and_parallel() -> dict:
         c = base_circuit()
         d = PassData(c)
         d['user'] = 'orig'
+        d['history'] = ['earlier pass']
+        d['stats'] = {'runs': 1}
         before = view(c, d)
         p = DoThenDecide(lambda a, b, accept=accept: accept, [Mutate()])
         H.install()
